@@ -33,6 +33,9 @@ inline std::vector<const DomInfo *> select_domains(const std::string &sel) {
   } else if (sel == "inter") {
     for (auto n : {"int", "sdbm", "soct", "term_int", "bool_int", "dbm", "term_dbm", "ric", "disint", "num"})
       if (find_domain(n)) out.push_back(find_domain(n));
+  } else if (sel == "regions") {
+    for (auto &d : roster())
+      if (d.regions) out.push_back(&d);
   } else if (sel == "arrays") {
     for (auto &d : roster())
       if (d.arrays) out.push_back(&d);
